@@ -275,6 +275,88 @@ Theorem C13_historical_label_access_refuted :
 Proof. exact (conj take_label_refuted take_pos_shift). Qed.
 Print Assumptions C13_historical_label_access_refuted.
 
+(* ---- call histories: transform is a function of (fitted state, passed series) only ------------ *)
+(* In the history semantics (ops Fit / Update with its update_params flag / Transform / Inverse; the
+   last two are queries) removing every transform / inverse_transform call from a history changes
+   neither the state nor the answer to any later call; two histories with the same fit / update
+   calls answer every call identically.  For every estimator (any state type, fit, update,
+   transform, inverse). *)
+Theorem C13_transform_calls_do_not_change_state :
+  forall (ST : Type) (fit : series -> ST) (update : ST -> series -> bool -> ST)
+         (transform inverse : ST -> series -> series) h h' q,
+  run ST fit update h = run ST fit update (strip h) /\
+  answer ST fit update transform inverse h q = answer ST fit update transform inverse (strip h) q /\
+  (strip h = strip h' ->
+   answer ST fit update transform inverse h q = answer ST fit update transform inverse h' q).
+Proof.
+  exact (fun ST fit update transform inverse h h' q =>
+    conj (transform_calls_do_not_change_state ST fit update h)
+      (conj (answer_strip ST fit update transform inverse h q)
+            (answer_independent_of_call_history ST fit update transform inverse h h' q))).
+Qed.
+Print Assumptions C13_transform_calls_do_not_change_state.
+
+(* Detrender (regenerated transform / inverse_transform) over an ABSTRACT refitting trend forecaster
+   (any state type, any fit, any update - refitting or not according to the flag -, any forecast
+   function): after ANY history of fits, updates and earlier transform / inverse calls, what
+   transform(z) returns comes back from inverse_transform as z, on z's index - the inverse uses the
+   CURRENT trend, which is the one transform used *)
+Theorem C13_roundtrip_after_any_history_detrender :
+  forall (FS : Type) (ffit : series -> FS) (fupdate : FS -> series -> bool -> FS)
+         (fpredict : FS -> Z -> Q) h qs z zt,
+  let tr := fun s => gen_det_transform (fpredict s) in
+  let inv := fun s => gen_det_inverse (fpredict s) in
+  forallb is_query qs = true ->
+  answer FS ffit fupdate tr inv h (Transform z) = Some zt ->
+  exists zi, answer FS ffit fupdate tr inv (h ++ Transform z :: qs) (Inverse zt) = Some zi /\
+             seq_eq zi z.
+Proof. exact code_det_roundtrip_after_any_history. Qed.
+Print Assumptions C13_roundtrip_after_any_history_detrender.
+
+Theorem C13_roundtrip_after_any_history_deseasonalizer : forall decompose sp m h qs z zt,
+  let upd := fun d z (_ : bool) => gen_des_update d z in
+  0 < sp ->
+  (forall y, Z.of_nat (length (decompose m sp (svals y))) = sp) ->
+  (m = Additive \/ forall y, Forall (fun c => ~ c == 0)%Q (decompose m sp (svals y))) ->
+  forallb is_query qs = true ->
+  answer dstate (des_fit decompose sp m) upd gen_des_transform gen_des_inverse h (Transform z)
+    = Some zt ->
+  exists zi, answer dstate (des_fit decompose sp m) upd gen_des_transform gen_des_inverse
+                    (h ++ Transform z :: qs) (Inverse zt) = Some zi /\ seq_eq zi z.
+Proof. exact code_des_roundtrip_after_any_history. Qed.
+Print Assumptions C13_roundtrip_after_any_history_deseasonalizer.
+
+(* transform (inverse_transform) of a sub-stretch - the observations whose time point satisfies any
+   predicate `keep`, e.g. the training part of the whole series - is the restriction of the
+   transform of the whole; also for pointwise maps and OptionalPassthrough *)
+Theorem C13_transform_restriction : forall d trend keep s,
+  gen_des_transform d (restrict keep s) = restrict keep (gen_des_transform d s) /\
+  gen_des_inverse d (restrict keep s) = restrict keep (gen_des_inverse d s) /\
+  gen_det_transform trend (restrict keep s) = restrict keep (gen_det_transform trend s) /\
+  gen_det_inverse trend (restrict keep s) = restrict keep (gen_det_inverse trend s).
+Proof. exact code_transform_restriction. Qed.
+Print Assumptions C13_transform_restriction.
+
+Theorem C13_transform_restriction_pointwise : forall (f : Q -> Q) b (h : series -> series) keep s,
+  pw_apply f (restrict keep s) = restrict keep (pw_apply f s) /\
+  (h (restrict keep s) = restrict keep (h s) ->
+   opt_apply b h (restrict keep s) = restrict keep (opt_apply b h s)).
+Proof. exact (fun f b h keep s => conj (pw_restrict f keep s) (opt_restrict b h keep s)). Qed.
+Print Assumptions C13_transform_restriction_pointwise.
+
+(* WITNESS of the excluded class of defect (not in /repo; seeded regression C13-c): a transform that
+   remembers the in-sample trend of the training index across an update breaks the round trip on
+   the training series and disagrees with the transform under the refitted trend *)
+Theorem C13_witness_memoised_trend_refuted :
+  exists st0 y refitted,
+    let '(yt1, st1) := memo_transform st0 y in
+    let st2 := memo_update st1 refitted in
+    let '(yt2, st3) := memo_transform st2 y in
+    ~ (val_at (memo_inverse st3 yt2) 0 == val_at y 0)%Q
+    /\ ~ (val_at yt2 0 == val_at (det_transform refitted y) 0)%Q.
+Proof. exact memoised_trend_refuted. Qed.
+Print Assumptions C13_witness_memoised_trend_refuted.
+
 (* hypotheses are satisfiable by a non-trivial instance: sp = 3, training starts at 5, one update
    batch starting at 12, a GAPPED stretch with time points 9, 10, 13, 17 *)
 Example C13_nonvacuous :
